@@ -21,8 +21,9 @@ fn parse_addr(s: &str) -> SocketAddr {
     match fam {
         "4" => SocketAddr::new(IpAddr::V4(Ipv4Addr::from(0x0a00_0000u32 + id)), port),
         // id = low + 64 * scope_id + 4096 * flowinfo: zoned / flow-labelled IPv6 addresses are distinct addresses
+        // low ids 48..63 are IPv4-mapped IPv6 addresses (::ffff:10.0.1.<low>): still IPv6 socket addresses for the dialer
         "6" => SocketAddr::V6(std::net::SocketAddrV6::new(
-            Ipv6Addr::from((0xfd00u128 << 112) + (id % 64) as u128),
+            if id % 64 >= 48 { Ipv4Addr::new(10, 0, 1, (id % 64) as u8).to_ipv6_mapped() } else { Ipv6Addr::from((0xfd00u128 << 112) + (id % 64) as u128) },
             port,
             id / 4096,
             (id / 64) % 64,
@@ -39,11 +40,11 @@ fn show_addr(a: &SocketAddr) -> String {
                 SocketAddr::V6(v6) => (v6.scope_id(), v6.flowinfo()),
                 _ => (0, 0),
             };
-            format!(
-                "6:{}:{}",
-                (u128::from(ip) - (0xfd00u128 << 112)) as u32 + 64 * scope + 4096 * flow,
-                a.port()
-            )
+            let low = match ip.to_ipv4_mapped() {
+                Some(v4) => v4.octets()[3] as u32,
+                None => (u128::from(ip) - (0xfd00u128 << 112)) as u32,
+            };
+            format!("6:{}:{}", low + 64 * scope + 4096 * flow, a.port())
         }
     }
 }
